@@ -39,9 +39,13 @@ TIERS = {
 }
 
 
+SAMPLE_FULL_LIMIT = 720
+
+
 class RandomProxy:
-    def __init__(self, chooser):
+    def __init__(self, chooser, reduced=False):
         self._c = chooser
+        self._reduced = reduced
 
     def randint(self, a, b):
         if not (isinstance(a, int) and isinstance(b, int)):
@@ -56,6 +60,16 @@ class RandomProxy:
         if not 0 <= k <= n:
             raise ValueError("Sample larger than population or is negative")
         total = math.perm(n, k)
+        if self._reduced and total > SAMPLE_FULL_LIMIT:
+            # deviation-bounded tiers for larger counts: the complete set of k-permutations is
+            # astronomically large, so the answer alphabet is reduced to 2n representatives: the k
+            # elements starting at every offset of the population, forwards and backwards
+            idx = self._c.choose(2 * n, f"sample(n={n},k={k},reduced)")
+            s0, rev = idx % n, idx >= n
+            rot = pop[s0:] + pop[:s0]
+            if rev:
+                rot = rot[::-1]
+            return rot[:k]
         idx = self._c.choose(total, f"sample(n={n},k={k})")
         # idx-th k-permutation in lexicographic order of positions (0 = first k elements in order)
         avail = list(range(n))
@@ -99,11 +113,11 @@ def postconditions(res, count, edge_cls, ensurelink):
     return None
 
 
-def run_once(count, en, cn, ensurelink, prefix):
+def run_once(count, en, cn, ensurelink, prefix, reduced=False):
     reset_globals()
     chooser = engine_f.Chooser(prefix)
     saved = rg.random
-    rg.random = RandomProxy(chooser)
+    rg.random = RandomProxy(chooser, reduced)
     try:
         try:
             res = rg.randgraph(count=count, edge=EDGES[en], connectivity=CONNS[cn], ensurelink=ensurelink)
@@ -145,8 +159,9 @@ def per_case(case):
     stats = {"n": 0, "nontriv": 0}
     outcomes = set()
 
+    reduced = bound is not None          # deviation-bounded scenarios use the reduced sample alphabet
     def run(prefix):
-        bad, trace = run_once(count, en, cn, ensurelink, prefix)
+        bad, trace = run_once(count, en, cn, ensurelink, prefix, reduced)
         stats["n"] += 1
         stats["nontriv"] += any(n > 1 for n, _ in trace)
         outcomes.add(tuple(c for _, c in trace))
@@ -154,7 +169,7 @@ def per_case(case):
             cgrp = "1" if count == 1 else ("2-4" if count <= 4 else ">=5")
             fp = f"randgraph|count={cgrp}|edge={en}|conn={cn}|ensurelink={ensurelink}|{bad}"
             if fp not in viols:
-                viols[fp] = {"case": list(case), "choices": [c for _, c in trace]}
+                viols[fp] = {"case": list(case), "choices": [c for _, c in trace], "reduced": reduced}
         return trace
 
     n_exec, max_len, trunc = engine_f.enumerate_choices(run, bound=bound, root=root)
@@ -169,7 +184,7 @@ def replay(rec, verbose=False):
             print("  seeded call", case, "->", r[3])
         return bool(r[2])
     _, count, en, cn, ensurelink, bound = case
-    bad, trace = run_once(count, en, cn, ensurelink, rec["choices"])
+    bad, trace = run_once(count, en, cn, ensurelink, rec["choices"], rec.get("reduced", False))
     if verbose:
         print(f"  randgraph(count={count}, edge={en}, connectivity={cn}, ensurelink={ensurelink})")
         print("  answers of the random source (alternatives, chosen):", trace)
@@ -230,7 +245,8 @@ def run(tier, seed, log):
     rep.assumptions = [
         "randgraph draws only through random.randint and random.sample (anything else is a harness error)",
         "counts above the complete range are covered up to 2 deviations from the default answers and by a "
-        "finite seed sweep (not exhaustive)",
+        "finite seed sweep (not exhaustive); there, a sample() with more than 720 possible answers is "
+        "answered from a reduced alphabet of 2n representatives (every offset, forwards and backwards)",
     ]
     rep.level = "model_checking"
     return rep.finish(confirm=replay)
